@@ -121,12 +121,15 @@ def trace_oracle(prog, lines):
     tk = set(floeng.taskables(prog))
     # frames whose enter and exit can be seen: they carry a recorder deed in both contexts
     seen = set()
+    has = {c: set() for c in CTX_LETTER}
     g0 = 0
     for fr in prog["framers"]:
         for f in fr["frames"]:
             ctxs = {it["ctx"] for it in f["items"] if it["t"] == "act" and it["act"]["k"] == "rec"}
             if "enter" in ctxs and "exit" in ctxs:
                 seen.add(g0)
+            for c in ctxs:
+                has[c].add(g0)
             g0 += 1
 
     def ancestor(a, b):                    # is a a proper ancestor of b
@@ -146,6 +149,9 @@ def trace_oracle(prog, lines):
         if line.startswith("E "):
             _, fname, ctx, _tag = line.split(" ")
             g = int(fname[1:])
+            if g not in seen:
+                events.append((g, ctx))
+                continue
             if ctx == "enter":
                 if not (events and events[-1] == (g, "enter")):       # several deeds of one context run together
                     if entered.get(g):
@@ -206,7 +212,10 @@ def trace_oracle(prog, lines):
                     ok = False
                     for nears in cands:
                         ex, en, re_ = ref_exen(far, nears, outline[far])
-                        if exits == list(reversed(ex)) and enters == en and rex == list(reversed(re_)) and ren == re_:
+                        if (exits == [g for g in reversed(ex) if g in has["exit"]]
+                                and enters == [g for g in en if g in has["enter"]]
+                                and rex == [g for g in reversed(re_) if g in has["rexit"]]
+                                and ren == [g for g in re_ if g in has["renter"]]):
                             ok = True
                     if not ok:
                         ex, en, re_ = ref_exen(far, cands[1], outline[far])
@@ -486,7 +495,7 @@ class CHECK(core.Check):
             return False
         reply = core.Driver("flo").run([floeng.encode(case["prog"])])[0]
         flags = [l for l in reply.split("|") if l.startswith("G ")]
-        want = {"D3": "overlap=1", "D3b": "shared=1", "D3c": "left=1"}.get(finding.get("id"))
+        want = {"D3": "overlap=1", "D3b": "shared=1", "D3c": "left=1", "D3d": "shared=1"}.get(finding.get("id"))
         return bool(flags) and want is not None and want in flags[0]
 
     def nontrivial(self, case, out):
